@@ -201,7 +201,9 @@ void rewrite_loop_in_place(Chunk *keyword, E_Token desired_type, const char *des
 
 static Chunk *find_start_brace(Chunk *pc)
 {
-   while (!pc->IsBraceOpen())
+   // stop at the end of the chunk list: a loop header without a body (incomplete input)
+   while (  pc->IsNotNullChunk()
+         && !pc->IsBraceOpen())
    {
       pc = pc->GetNextNcNnl();
    }
@@ -299,6 +301,12 @@ void rewrite_infinite_loops()
       {
          Chunk *start_brace = find_start_brace(pc);
          Chunk *end_brace   = start_brace->GetClosingParen();
+
+         if (  start_brace->IsNullChunk()
+            || end_brace->IsNullChunk())
+         {
+            continue;
+         }
 
          if (desired_type == CT_WHILE_OF_DO)
          {
